@@ -110,7 +110,12 @@ def thorough(chk, mod, prop, a):
         pats = pats[:limit]
     results = []
     t0 = time.time()
+    budget = float(os.environ.get("VERIF_MUTANT_BUDGET_S", "420") or 0)
+    skipped = 0
     for p in pats:
+        if budget and time.time() - t0 > budget:
+            skipped += 1
+            continue
         st, out = mutate.run_on_patch(prop, p)
         rules = sorted(set(l.split("rule=")[1].split(" ")[0] for l in out.splitlines() if " rule=" in l and "VIOLATION" in l.upper()))
         results.append({"mutant": os.path.basename(p), "status": st, "rules": rules})
@@ -119,6 +124,10 @@ def thorough(chk, mod, prop, a):
     chk.self_validation = {"mutants": len(results), "flagged": sum(1 for r in results if r["status"] == "flagged"),
                            "silent": [r["mutant"] for r in missed],
                            "not_applicable": [r["mutant"] for r in results if r["status"] in ("patch-failed", "build-failed")],
-                           "results": results, "wall_s": round(time.time() - t0, 1)}
+                           "results": results, "wall_s": round(time.time() - t0, 1),
+                           "not_run_time_budget": skipped, "time_budget_s": budget}
+    if skipped:
+        print("  self-validation: %d further mutants not run (time budget VERIF_MUTANT_BUDGET_S=%g s; 0 = no budget; "
+              "VERIF_SEED changes the order)" % (skipped, budget))
     for r in missed:
         print("SELF-VALIDATION: mutant %s of %s was NOT reported by the rules (checker weakness, not a property violation)" % (r["mutant"], prop))
